@@ -242,7 +242,20 @@ def comment_window(ctx):
         ctx.ok("window:ext.extract#reset-on-every-path", db.where(lp), "every non-comment node ends comment collection")
     cm = [s for s in lp.body if isinstance(s, ast.If) and "parsetree.Comment" in src(s.test)]
     ctx.check(bool(cm) and "startswith(comment_tag)" in canon(src(cm[0]), nm_) and "in_translator_comments = True" in canon(src(cm[0]), nm_) and any(P.has(fn, p_) for p_ in NONEMPTY_TAGS), "window.starts-with-tag", db.where(cm[0]) if cm else db.where(lp), "comment collection does not start at a comment beginning with a configured tag", "starts at a tagged ## comment")
+    # every configured tag is tried: the loop over the tags is left only from inside the branch of a tag that matched
+    tl = [l_ for l_ in ast.walk(lp) if isinstance(l_, ast.For) and isinstance(l_.target, ast.Name) and nm_.get(l_.target.id) == "comment_tag"]
+    early = [b_ for l_ in tl for b_ in ast.walk(l_) if isinstance(b_, (ast.Break, ast.Return)) and not any(isinstance(a_, ast.If) and "startswith" in src(a_.test) for a_ in _anc_until(b_, l_))]
+    ctx.check(bool(tl) and not early, "window.every-tag", db.where(early[0]) if early else db.where(lp), "the loop over the configured comment tags is left after the first tag whether it matched or not: comments starting with a later tag are never attached", "every configured tag is tried")
     ctx.check(P.has(lp, "for $m in self.process_python(...):\n    yield $m\n    $u = True\nif $u:\n    $t = []"), "window.consumed", db.where(lp), "comments are not cleared once attached", "cleared after use")
+
+
+def _anc_until(node, stop):
+    out = []
+    x = getattr(node, "_parent", None)
+    while x is not None and x is not stop:
+        out.append(x)
+        x = getattr(x, "_parent", None)
+    return out
 
 
 def _branch_of(path_nodes, lp):
@@ -274,3 +287,35 @@ def code_unmodified(ctx):
         v_ = ap[0].args[1].id
         ok = P.has(me, "(%s, $e) = self.parse_until_text(...)" % v_) and all(isinstance(d.value, ast.Call) and dotted(d.value.func) in ("self.parse_until_text", v_ + ".replace") for d in walk_func(me) if isinstance(d, ast.Assign) and any(isinstance(t_, ast.Name) and t_.id == v_ for t_ in ast.walk(d.targets[0])))
     ctx.check(ok, "lexer.expression-text", db.where(me), "the lexer does not hand the expression text as scanned to the Expression node", "Expression(text as scanned)")
+
+
+@rule("C20.lingua-path", min_instances=5)
+def lingua_path(ctx):
+    """the Lingua extractor scans the same code as Babel's: leading lines it strips are added to the reported line, `elif` lines are scanned as `if`, only clauses without an expression are blanked"""
+    db = ctx.db
+    fn = db.func("ext.linguaplugin.LinguaMakoExtractor.process_python")
+    codep, linep = pn(fn, 1), pn(fn, 2)
+    srcv = assigned_from(fn, "%s.getvalue()" % codep) | assigned_from(fn, "%s.getvalue().strip()" % codep) | assigned_from(fn, "%s.getvalue().lstrip()" % codep)
+    ctx.require(srcv, "process_python: the code text is not taken from the stream (anchor)")
+    # stripping in front of the code must be compensated in the line number
+    strips = [c for c in walk_func(fn) if isinstance(c, ast.Call) and isinstance(c.func, ast.Attribute) and c.func.attr in ("strip", "lstrip") and not c.args]
+    comp = P.has(fn, "$s = $src.lstrip()\n%s += $src[:len($src) - len($s)].count('\\n')" % linep)
+    full_strip = [c for c in strips if c.func.attr == "strip" and (P.matches(c.func.value, "%s.getvalue()" % codep) or src(c.func.value) in srcv)]
+    ctx.check(bool(strips) and comp and not full_strip, "leading-lines-counted", db.where(strips[0]) if strips else db.where(fn), "the code is stripped of its leading white space (which holds the newline extract_nodes prepends and the first newline of a block) without adding the removed line terminators to the reported line: every message is reported too early", "removed leading line terminators are added to the line")
+    call = [c for c in walk_func(fn) if isinstance(c, ast.Call) and dotted(c.func) == "self.python_extractor"]
+    ctx.check(bool(call) and len(call[0].args) == 4 and P.matches(call[0].args[3], "%s - 1" % linep), "base-line", db.where(call[0]) if call else db.where(fn), "the Python extractor is not given code_lineno - 1 as the line before the code", "line before the code = code_lineno - 1")
+    # clause handling
+    outer = [i for i in walk_func(fn) if isinstance(i, ast.If) and P.matches(i.test, "$s.endswith(':')")]
+    ctx.require(outer, "process_python: handling of control-line clauses not found (anchor)")
+    o = outer[0]
+    sv = src(o.test.func.value)
+    blank = [i for i in ast.walk(o) if isinstance(i, ast.If) and any(P.matches(s_, "%s = ''" % sv) for s_ in i.body)]
+    words = set()
+    for i in blank:
+        for c_ in ast.walk(i.test):
+            if isinstance(c_, ast.Constant) and isinstance(c_.value, str):
+                words.add(c_.value.rstrip(":"))
+    ctx.check(bool(blank) and words <= {"try", "else", "except", "finally"}, "blanked-clauses", db.where(blank[0]) if blank else db.where(o), "clauses %s are blanked before scanning: a gettext call in the condition of such a line is never reported" % sorted(words - {"try", "else", "except", "finally"}), "only clauses without a condition are blanked: %s" % sorted(words))
+    elif_ = [i for i in ast.walk(o) if isinstance(i, ast.If) and P.matches(i.test, "%s.startswith('elif')" % sv) and any(P.matches(s_, "%s = %s[2:]" % (sv, sv)) for s_ in i.body)]
+    ctx.check(bool(elif_), "elif-as-if", db.where(o), "`% elif cond:` lines are not turned into `if cond:` before scanning: gettext calls in elif conditions are not reported by Lingua", "elif -> if")
+    ctx.check(any(P.matches(s_, "%s += 'pass'" % sv) for s_ in o.body), "completed", db.where(o), "the control line is not completed with a body before scanning", "`pass` appended")
